@@ -126,7 +126,7 @@ def getModRM(obj, Mod, RM, data, REX=None):
             if seg == "":
                 seg = env.cs
             Mod = 0b10
-        elif b.ref in ("rbp", "r13"):
+        elif b.ref in ("rbp", "r13", "ebp", "r13d"):
             b = s + env.cst(0, adrsz)
             s = 0
             Mod = 0b10
